@@ -5,7 +5,7 @@
 import sys, os, subprocess, json, tempfile, xml.etree.ElementTree as ET
 tree = os.path.abspath(sys.argv[1] if len(sys.argv) > 1 else "/repo")
 fd, xml = tempfile.mkstemp(suffix=".xml", dir="/var/tmp"); os.close(fd)
-env = dict(os.environ, PYTHONPATH=tree)
+env = dict(os.environ, PYTHONPATH=tree, OMP_NUM_THREADS="1", OPENBLAS_NUM_THREADS="1", MKL_NUM_THREADS="1")
 env.pop("SYNE_TUNE_VERIF", None)
 p = subprocess.run(["/venv/bin/python", "-m", "pytest", "-ra", "-q", "-p", "no:cacheprovider",
                     "--timeout=900", "--continue-on-collection-errors", "--junitxml=" + xml],
